@@ -1,5 +1,6 @@
 import Httpcache.Proofs.VaryKey
 import Httpcache.Model.IndexJson
+import Httpcache.Proofs.Backend
 /- The variant index: no two references of an index describe the same variant (invariant of StoreResponse),
    hence every index reachable in any history is bounded by the number of distinct variants. -/
 namespace Httpcache
@@ -189,5 +190,93 @@ theorem index_string_is_json_safe (validUtf8 : Str → Bool) (b64 : Str → Str)
     exact h.1
   · simp only [h, Bool.false_eq_true, ↓reduceIte]
     exact hv s
+
+/-! ### the number of keys in the backing store -/
+
+theorem keys_ainsert (k v : Str) (m : KV) : ∀ x ∈ (ainsert k v m).map (·.1), x = k ∨ x ∈ m.map (·.1) := by
+  induction m with
+  | nil => intro x hx; simp [ainsert] at hx; exact Or.inl hx
+  | cons p ps ih =>
+    intro x hx
+    unfold ainsert at hx
+    split at hx
+    · rename_i hp
+      simp only [List.map_cons, List.mem_cons] at hx ⊢
+      rcases hx with hx | hx
+      · exact Or.inl hx
+      · exact Or.inr (Or.inr hx)
+    · simp only [List.map_cons, List.mem_cons] at hx ⊢
+      rcases hx with hx | hx
+      · exact Or.inr (Or.inl hx)
+      · rcases ih x hx with h | h
+        · exact Or.inl h
+        · exact Or.inr (Or.inr h)
+
+theorem nodup_ainsert (k v : Str) (m : KV) (h : (m.map (·.1)).Nodup) : ((ainsert k v m).map (·.1)).Nodup := by
+  induction m with
+  | nil => simp [ainsert]
+  | cons p ps ih =>
+    simp only [List.map_cons, List.nodup_cons] at h
+    unfold ainsert
+    split
+    · rename_i hp
+      simp only [List.map_cons, List.nodup_cons]
+      exact ⟨by rw [← hp]; exact h.1, h.2⟩
+    · rename_i hp
+      simp only [List.map_cons, List.nodup_cons]
+      refine ⟨?_, ih h.2⟩
+      intro hm
+      rcases keys_ainsert k v ps _ hm with e | e
+      · exact hp e
+      · exact h.1 e
+
+/-- one write or delete the backing store receives -/
+inductive StoreOp where
+  | set (k v : Str)
+  | del (k : Str)
+
+def applyOp (m : KV) : StoreOp → KV
+  | .set k v => kvSet m k v
+  | .del k => kvDel m k
+
+theorem applyOps_inv (K : List Str) (ops : List StoreOp) (hK : ∀ k v, StoreOp.set k v ∈ ops → k ∈ K) :
+    ∀ (m : KV), (m.map (·.1)).Nodup → (∀ x ∈ m.map (·.1), x ∈ K) →
+      ((ops.foldl applyOp m).map (·.1)).Nodup ∧ ∀ x ∈ (ops.foldl applyOp m).map (·.1), x ∈ K := by
+  induction ops with
+  | nil => intro m h1 h2; exact ⟨h1, h2⟩
+  | cons op rest ih =>
+    intro m h1 h2
+    simp only [List.foldl_cons]
+    apply ih (fun k v hm => hK k v (List.mem_cons_of_mem _ hm))
+    · cases op with
+      | set k v => exact nodup_ainsert k v m h1
+      | del k =>
+        simp only [applyOp, kvDel]
+        exact h1.sublist (List.Sublist.map _ List.filter_sublist)
+    · intro x hx
+      cases op with
+      | set k v =>
+        rcases keys_ainsert k v m x hx with e | e
+        · rw [e]; exact hK k v List.mem_cons_self
+        · exact h2 x e
+      | del k =>
+        simp only [applyOp, kvDel] at hx
+        obtain ⟨p, hp, e⟩ := List.mem_map.mp hx
+        exact h2 x (List.mem_map.mpr ⟨p, (List.mem_filter.mp hp).1, e⟩)
+
+/-- C19, key part, for EVERY history: if every key the store is ever asked to write belongs to the
+    finite set `K` (the URL keys and variant ids of the request alphabet — `written_keys_determined`),
+    the store never holds more than |K| keys, however many writes and deletes it receives -/
+theorem store_keys_bounded (K : List Str) (ops : List StoreOp) (hK : ∀ k v, StoreOp.set k v ∈ ops → k ∈ K) :
+    (kvKeys (ops.foldl applyOp []) []).length ≤ K.length := by
+  obtain ⟨hnd, hsub⟩ := applyOps_inv K ops hK [] List.nodup_nil (fun x hx => by cases hx)
+  have hall : kvKeys (ops.foldl applyOp []) [] = (ops.foldl applyOp []).map (·.1) := by
+    unfold kvKeys
+    apply List.filter_eq_self.mpr
+    intro a _
+    simp [isPrefixOf]
+  rw [hall]
+  exact List.Nodup.length_le_of_subset hnd (fun x hx => hsub x hx)
+
 
 end Httpcache
